@@ -5,6 +5,7 @@ CONSTANTS
   SinGrid <- MC_SinQuick
   MaxDepth = 4
   Bug = "none"
+  MaxRetarget = 0
   Emit = TRUE
 INVARIANT TypeOK
 INVARIANT RouteAgreement
